@@ -1,5 +1,6 @@
 """C12 — totality: theorems (coq/props/C12.v) + boundary-stream whole-model monitor."""
 import random
+from fractions import Fraction as F
 import sys
 
 import common as C
@@ -35,6 +36,45 @@ def float_pass(rep, thorough):
                 rep.violation("counterexample", f"C12 whole-model monitor (float): {msg}",
                               {"seed": seed, "size": size, "mode": "float", "config": NG.cfg_json(cfg)}, True)
     rep.monitor["C12_models_float"] = {"models": n, "raised": raised, "violations": viol}
+    # shapes the generator's backbone does not produce: a store that draws from a reach through one arc and releases into
+    # the SAME reach through another (pumped storage on a lumped reach), a junction fed and drained by the same river pair,
+    # arcs in both directions between two nodes - legal, and they must build and run
+    loops = {"models": 0, "raised": 0}
+    for i in range(40 if thorough else 12):
+        r1 = random.Random(f"{C.seed()}:c12-loops:{i}")
+        g = NG.Gen(r1, 5, "simple", {})
+        NG.set_pollutants("simple")
+        try:
+            out = g.waste()
+            riv = g.river()
+            g.arc(g.catchment(r1.choice(["steady", "mixed", "burst"])), riv)
+            low = g.river() if r1.random() < 0.5 else None
+            g.arc(riv, low or out)
+            if low:
+                g.arc(low, out)
+            store = g.reservoir(river_like=True)
+            g.nodes[-1]["type_"] = "Reservoir"          # filed as the library files it: the default orchestration serves it
+            g.arc(riv, store, cap=r1.choice([None, F(6)]))                  # abstraction / inflow
+            g.arc(store, r1.choice([riv, riv, low or riv]), cap=r1.choice([None, F(4)]))      # release back into the reach
+            if r1.random() < 0.4:
+                j = g.junction()
+                g.arc(riv, j)
+                g.arc(j, low or out)
+            cfg = {"polset": "simple", "dates": g.dates, "nodes": g.nodes, "arcs": g.arcs, "size": "loop"}
+        finally:
+            NG.set_pollutants("default")
+        mon, model, err, out_ = MN.run_cfg(cfg, "float", pids=("C12",))
+        loops["models"] += 1
+        loops["raised"] += int(err is not None)
+        rep.add_eval(("net-float-loop", i), nontrivial=True)
+        for (p, msg, sig) in mon.viol:
+            if sig:
+                continue
+            viol += 1
+            if viol <= 3:
+                rep.violation("counterexample", f"C12 whole-model monitor (float, store releasing into the reach it draws from): {msg}",
+                              {"seed": i, "size": "loop", "mode": "float", "config": NG.cfg_json(cfg)}, True)
+    rep.monitor["C12_models_with_loops"] = loops
     # a sewer with temperature data discharging over every arc class (incl. decaying arcs) into receivers that fill up
     import mon_duo
     mon_duo.run(rep, thorough, "C12")
